@@ -1,43 +1,67 @@
-"""C14: every declaration of rkcommon/memory/malloc.h, malloc.cpp, containers/aligned_allocator.h, AlignedVector.h (keys as
-produced by declscan.py from the clang AST + the #define's) with the harness case kind(s) / theorem(s) that cover it, or the
-reason why it is excluded.  props/C14/check.py fails when one of the files declares something that is in neither table (a new
-function, overload, member, parameter list) or when a listed declaration disappeared.
+"""C14 inventory: every declaration of rkcommon/memory/malloc.h, malloc.cpp, containers/aligned_allocator.h, AlignedVector.h
+(keys as produced by declscan.py from the clang AST on every run, + the #define's of those files) mapped to the harness case
+kinds that EXECUTE it and the theorems / regenerated obligations about it, or excluded with a reason tied to the property text.
+props/C14/check.py fails closed when a file declares something that is in neither table (new function, overload, member,
+parameter list), when a listed declaration disappeared or changed its signature, when a covered declaration has zero executed
+cases in the run, or when a named theorem is not discharged.
+Implicitly-declared special members: aligned_allocator declares its default/copy constructor and destructor (= default) and
+deletes copy assignment, which suppresses the implicit moves; there is nothing implicit left to list.
 Case kinds: M max_size, G allocate, I isAligned, P ALIGN_PTR, S the assert, H alignedMalloc/alignedFree histories,
 T typed alignedMalloc<T>, V/W AlignedVector histories (trivial / non-trivially-copyable elements), A remaining members."""
 AA = "aligned_allocator.h aligned_allocator::"
+
+
+def C(kinds, thms="", note=""):
+    return {"kinds": kinds.split(), "theorems": thms.split(), "note": note}
+
+
+VEC = "vector_data_aligned_after_every_history vector_ownership_every_history vector_elements_survive_reallocation"
 COVER = {
-    "AlignedVector.h AlignedVector <alias>": "V, W (every vector case is an AlignedVector<T>); theorems vector_*",
-    "aligned_allocator.h #define OSPRAY_DEFAULT_ALIGNMENT": "V, W (data() % 64), G with A=64; gen_allocate_sizeof_* (request alignment 64)",
-    AA + "pointer <alias>": "V, W (std::allocator_traits of the vector), compile time",
-    AA + "const_pointer <alias>": "V, W, compile time",
-    AA + "reference <alias>": "V, W, compile time",
-    AA + "const_reference <alias>": "V, W, compile time",
-    AA + "value_type <alias>": "V, W, compile time",
-    AA + "size_type <alias>": "V, W, compile time",
-    AA + "difference_type <alias>": "V, W, compile time",
-    "aligned_allocator.h rebind::other <alias>": "A (rebind<double>::other is aligned_allocator<double>); V, W (std::vector rebinds its allocator)",
-    AA + "<constructor> void ()": "A, G, V, W",
-    AA + "<constructor> void (const aligned_allocator<T, alignment> &)": "A (copy), V, W (the vector stores a copy)",
-    AA + "<destructor> void ()": "A, G, V, W",
-    AA + "<constructor> void (const aligned_allocator<U, OA> &)": "A (aligned_allocator<int> from aligned_allocator<double>)",
-    AA + "address T *(T &) const": "A",
-    AA + "address const T *(const T &) const": "A",
-    AA + "max_size size_t () const": "M, A; gen_max_size_sizeof_*; allocate_no_overflow, allocate_guard_tight",
-    AA + "operator!= bool (const aligned_allocator<T, alignment> &) const": "A; V, W (swap)",
-    AA + "operator== bool (const aligned_allocator<T, alignment> &) const": "A; V, W (swap)",
-    AA + "construct void (T *const, const T &) const": "W (std::string, std::vector<int>, instrumented element), V; gen_construct_is_placement_copy; lifetime theorems",
-    AA + "destroy void (T *const) const": "W, V; gen_destroy_is_destructor_call; lifetime theorems",
-    AA + "allocate T *(const size_t) const": "G, V, W; gen_allocate_sizeof_*; allocate_outcomes, allocate_length_error_first",
-    AA + "deallocate void (T *const, const size_t) const": "G, V, W, A (spy: every block freed exactly once, no leak); free_exactly_once, vector_ownership_every_history",
-    AA + "allocate T *(const size_t, const U *) const": "A (with a hint: aligned pointer, length_error above max_size)",
-    "malloc.cpp alignedMalloc void *(size_t, size_t)": "H, S (both back ends + spy), under G/V/W/T; alignedMalloc_spec, heap_integrity_history",
-    "malloc.cpp alignedFree void (void *)": "H; free_exactly_once, other_blocks_intact",
-    "malloc.h #define ALIGN_PTR(ptr, alignment)": "P; gen_ALIGN_PTR_size_t, gen_ALIGN_PTR_int; align_ptr_spec",
-    "malloc.h alignedMalloc void *(size_t, size_t)": "H, S",
-    "malloc.h alignedFree void (void *)": "H",
-    "malloc.h alignedMalloc T *(size_t, size_t)": "T (sizeof(T) 1,4,8,12,72 x alignments 1..4096); gen_typed_alignedMalloc_sizeof_*, gen_typed_request_forwards_alignment",
-    "malloc.h isAligned bool (void *, int)": "I, H, V, W; gen_isAligned_expr; isAligned_spec",
-    "malloc.h #define STACK_BUFFER(TYPE, nElements)": "A (alloca buffer is writable)",
+    "AlignedVector.h AlignedVector <alias>": C("V W", VEC, "every vector case is an AlignedVector<T>"),
+    "aligned_allocator.h #define OSPRAY_DEFAULT_ALIGNMENT":
+        C("V W G A", "gen_allocate_sizeof_1 gen_allocate_sizeof_8 vector_data_aligned_after_every_history", "data() % 64; request alignment 64"),
+    AA + "pointer <alias>": C("V W", "", "std::allocator_traits of the vector (compile time)"),
+    AA + "const_pointer <alias>": C("V W", "", "compile time"),
+    AA + "reference <alias>": C("V W", "", "compile time"),
+    AA + "const_reference <alias>": C("V W", "", "compile time"),
+    AA + "value_type <alias>": C("V W", "", "compile time"),
+    AA + "size_type <alias>": C("V W", "", "compile time"),
+    AA + "difference_type <alias>": C("V W", "", "compile time"),
+    "aligned_allocator.h rebind::other <alias>":
+        C("A V W", "", "A: rebind<double>::other of the default-alignment allocator is aligned_allocator<double>; std::vector rebinds its allocator. "
+          "NOTE rebind drops a non-default alignment parameter (reported as a possible finding outside the property text: AlignedVector uses the default)"),
+    AA + "<constructor> void ()": C("A G V W"),
+    AA + "<constructor> void (const aligned_allocator<T, alignment> &)": C("A V W", "", "the vector stores a copy"),
+    AA + "<destructor> void ()": C("A G V W"),
+    AA + "<constructor> void (const aligned_allocator<U, OA> &)":
+        C("A", "", "aligned_allocator<int> from aligned_allocator<double> and from aligned_allocator<int,4096> (other T, other alignment)"),
+    AA + "address T *(T &) const": C("A"),
+    AA + "address const T *(const T &) const": C("A"),
+    AA + "max_size size_t () const":
+        C("M A G", "gen_max_size_sizeof_1 gen_max_size_sizeof_2 gen_max_size_sizeof_4 gen_max_size_sizeof_8 allocate_no_overflow allocate_guard_tight"),
+    AA + "operator!= bool (const aligned_allocator<T, alignment> &) const":
+        C("A", "", "also between allocators of another T / alignment after conversion: never unequal"),
+    AA + "operator== bool (const aligned_allocator<T, alignment> &) const":
+        C("A", "free_exactly_once", "always true, also for another T / alignment after conversion; sound because deallocate only forwards the pointer to "
+          "alignedFree, which does not depend on T or the alignment: A allocates with alignment 4096 and releases through an int/64 allocator"),
+    AA + "construct void (T *const, const T &) const":
+        C("W V", "gen_construct_is_placement_copy element_constructed_once reallocation_constructs_then_destroys"),
+    AA + "destroy void (T *const) const":
+        C("W V", "gen_destroy_is_destructor_call element_destroyed_once constructed_equals_destroyed"),
+    AA + "allocate T *(const size_t) const":
+        C("G V W A", "gen_allocate_sizeof_1 gen_allocate_sizeof_2 gen_allocate_sizeof_4 gen_allocate_sizeof_8 allocate_outcomes allocate_length_error_first"),
+    AA + "deallocate void (T *const, const size_t) const":
+        C("G V W A", "free_exactly_once vector_ownership_every_history", "spy: every block freed exactly once, no leak"),
+    AA + "allocate T *(const size_t, const U *) const": C("A", "", "with a hint: aligned pointer, length_error above max_size"),
+    "malloc.cpp alignedMalloc void *(size_t, size_t)": C("H S G T V W", "alignedMalloc_spec heap_integrity_history", "both back ends + spy"),
+    "malloc.cpp alignedFree void (void *)": C("H G T V W", "free_exactly_once other_blocks_intact free_of_dead_pointer_rejected"),
+    "malloc.h #define ALIGN_PTR(ptr, alignment)": C("P", "gen_ALIGN_PTR_size_t gen_ALIGN_PTR_int align_ptr_spec align_ptr_wrap"),
+    "malloc.h alignedMalloc void *(size_t, size_t)": C("H S"),
+    "malloc.h alignedFree void (void *)": C("H"),
+    "malloc.h alignedMalloc T *(size_t, size_t)":
+        C("T", "gen_typed_alignedMalloc_sizeof_4 gen_typed_alignedMalloc_sizeof_8 gen_typed_request_forwards_alignment"),
+    "malloc.h isAligned bool (void *, int)": C("I H V W", "gen_isAligned_expr gen_isAligned_default_alignment isAligned_spec isAligned_negative_int"),
+    "malloc.h #define STACK_BUFFER(TYPE, nElements)": C("A", "", "alloca buffer is writable"),
 }
 EXCLUDE = {
     AA + "operator= aligned_allocator<T, alignment> &(const aligned_allocator<T, alignment> &)":
